@@ -90,6 +90,7 @@ def run(ctx) -> None:
     r20_7(ctx)
     r20_8(ctx)
     r20_9(ctx)
+    r20_10(ctx)
     ctx.floor("streaming_units", 20)
     ctx.floor("pull_loops", 15)
     ctx.floor("windows_checked", 3)
@@ -242,6 +243,15 @@ def r20_5(ctx) -> None:
                             bad += 1
                             ctx.fail("R20.5", u, n, f"`{norm(n.ast.func)}(...)` is handed the source `{norm(a)}`: it keeps its window "
                                      f"({WINDOW_TOOLS[tq]}) alive, and {short.split('.')[-1]} has no documented window of its own", node=n)
+                continue
+            if lib_acc is None and r.kind == "stdlib" and r.qual in ("itertools.tee", "itertools.cycle"):
+                # the standard library's own buffering tools: tee keeps every item one of its branches has not taken yet (a
+                # branch that is only peeked at keeps all the rest), cycle keeps them all
+                for a in n.ast.args[:1]:
+                    if not isinstance(a, ast.Starred) and _is_source(ctx, u, a, n) and ctx.pkg.canonical(ctx.unit(short)) not in WINDOW_TOOLS:
+                        bad += 1
+                        ctx.fail("R20.5", u, n, f"`{norm(n.ast.func)}(...)` is handed the source `{norm(a)}`: {r.qual} buffers what one "
+                                 "of its branches has not consumed - an unbounded window that this tool does not document", node=n)
                 continue
             if lib_acc is None and (name not in MATERIALISERS or (r.kind == "stdlib" and not r.qual.startswith(("builtins.", "collections.")))):
                 continue
@@ -534,6 +544,40 @@ class _Relabel:
 
     def fail(self, rule, *a, **k):
         return self._ctx.fail(self._rid, *a, **k)
+
+
+def r20_10(ctx) -> None:
+    """A streaming tool that re-binds its iterator to a *wrapper around that very iterator* once per round
+    (``it = chain((head,), it)`` to push an item back) builds one more layer per round; every layer stays alive, with
+    whatever it holds, for as long as the outermost one is used."""
+    ctx.rule("R20.10", "no streaming tool wraps its own iterator again in every round (`it = wrapper(.., it)` inside the loop that "
+                       "consumes the stream): the layers pile up with the length of the stream")
+    bad = 0
+    units = [ctx.unit(s_) for s_ in _present(ctx, STREAMING) if s_ not in ACCUMULATORS]
+    units += _helper_generators(ctx, [s_ for s_ in _present(ctx, STREAMING) if s_ not in ACCUMULATORS])
+    for u0 in units:
+        u = ctx.inlined(u0)
+        cfg = cfg_of(u)
+        loops = _loops_with_pulls(ctx, u)
+        for n in cfg.nodes:
+            if n.kind != "store" or n.tag or not isinstance(n.info.get("value"), ast.Call):
+                continue
+            tg = n.info.get("targets", [None])[0]
+            call = n.info["value"]
+            if not isinstance(tg, ast.Name) or len(n.info.get("targets", [])) != 1:
+                continue
+            args = [a_.value if isinstance(a_, ast.Starred) else a_ for a_ in call.args] + [k_.value for k_ in call.keywords]
+            if not any(isinstance(a_, ast.Name) and a_.id == tg.id for a_ in args):
+                continue
+            if not any(n.in_region("loop", a) for (a, _p) in loops if not _is_per_source_loop(ctx, u, a)):
+                continue
+            v = ctx.vals.expr(u, call, n)
+            if any(a_[0] in ("libinst", "libgen", "borrowed", "iter", "scoped", "genexp", "stdlibval") for a_ in v):
+                bad += 1
+                ctx.fail("R20.10", u, n.ast, f"`{tg.id}` is re-bound to a wrapper around itself inside the loop that consumes the stream: "
+                         "one more layer per round, each kept alive (with what it holds) by the next", node=n)
+    if not bad:
+        ctx.ok("R20.10", "package", "no streaming tool re-wraps its iterator per round")
 
 
 def r20_9(ctx) -> None:
